@@ -86,8 +86,10 @@ NEEDS = {
                  "only (what the hand-over flags mean after a re-assignment in mid-episode is not defined by the wrapper)"),
     "C15-r6m1": ("OpenSpielWrapper.step decides LAST / _should_reset after the calls that can fail: on exactly the terminal "
                  "step the observation of an agent that finished earlier raises once, the caller steps again",
-                 "NOT CAUGHT: the adapter sessions have no fault injection (the stub never raises from get_obs); the "
-                 "interrupted-step checks exist for the all-step manager, the super-agent and communication wrappers only"),
+                 "MISSED at first (the adapter sessions had no fault injection); the OpenSpiel play-throughs now use a "
+                 "subclass that overrides the documented hook get_legal_actions (same answer, fails once when armed): after a "
+                 "play-through that stopped in mid-episode one more step is interrupted in that way, and if it was the "
+                 "terminal one the next step must start a new episode"),
     "C15-r6m2": ("is_turn_based tests type(sim) is TurnBasedManager: a subclass of TurnBasedManager",
                  "MISSED at first; for half of the scripted simulations the managers are instances of subclasses that "
                  "override nothing"),
